@@ -105,8 +105,33 @@ pub fn max_err(got: &[Dyadic], want: &[Dyadic]) -> (f64, usize) {
     m
 }
 
-/// Exact error of every key cell under the clear encryption secret.  `pt[col]` is the small
-/// polynomial the column encrypts, placed at 2^-((row+1) dsize b).
+/// Exact error (1-norm, max-norm; torus units) of every gadget cell under the clear secret.
+/// `pt[col]` is the small polynomial the column encrypts, placed at 2^-((row+1) dsize b).
+pub fn cell_errors(cells: &[VecZnx<Vec<u8>>], b: usize, dnum: usize, dsize: usize, rank_in: usize, sk_enc: &[Vec<i64>], pt: &[Vec<i64>]) -> Vec<Vec<(f64, f64, usize)>> {
+    let n = cells[0].n();
+    let mut out = vec![vec![(0f64, 0f64, 0usize); rank_in]; dnum];
+    for row in 0..dnum {
+        for col in 0..rank_in {
+            let cell = &cells[row * rank_in + col];
+            let ph = phase_vals(cell, sk_enc, b);
+            let (mut l1, mut mx, mut at) = (0f64, 0f64, 0usize);
+            for i in 0..n {
+                let want = Dyadic::from_limbs_i64(&[pt[col][i]], (row + 1) * dsize * b);
+                let e = torus_err(&ph[i], &want).approx_f64().abs();
+                l1 += e;
+                if e > mx {
+                    mx = e;
+                    at = i;
+                }
+            }
+            out[row][col] = (l1, mx, at);
+        }
+    }
+    out
+}
+
+/// Exact error of every key cell under the clear encryption secret, required to be inside the
+/// fresh-encryption bound of `ni`.
 #[allow(clippy::too_many_arguments)]
 pub fn key_meta(
     cells: &[VecZnx<Vec<u8>>],
@@ -123,35 +148,30 @@ pub fn key_meta(
         return Err(format!("key has {} cells, expected dnum*rank_in = {}", cells.len(), dnum * rank_in));
     }
     let size = cells[0].size();
-    let n = cells[0].n();
     let (limb, scale) = ni.target_limb_and_scale(b);
     // worst case of one fresh sample + one unit of the last limb for the final rounding
     let fresh = (ni.bound * scale).round() * p2(-(((limb + 1) * b) as i64)) + p2(-((size * b) as i64));
+    for (i, cell) in cells.iter().enumerate() {
+        if cell.cols() != rank_out + 1 {
+            return Err(format!("key cell ({},{}) has {} columns, expected rank_out+1 = {}", i / rank_in, i % rank_in, cell.cols(), rank_out + 1));
+        }
+    }
+    let errs = cell_errors(cells, b, dnum, dsize, rank_in, sk_enc, pt);
     let mut err_l1 = vec![vec![0f64; rank_in]; dnum];
     let mut err_max = 0f64;
     for row in 0..dnum {
         for col in 0..rank_in {
-            let cell = &cells[row * rank_in + col];
-            if cell.cols() != rank_out + 1 {
-                return Err(format!("key cell ({row},{col}) has {} columns, expected rank_out+1 = {}", cell.cols(), rank_out + 1));
-            }
-            let ph = phase_vals(cell, sk_enc, b);
-            let mut l1 = 0f64;
-            for i in 0..n {
-                let want = Dyadic::from_limbs_i64(&[pt[col][i]], (row + 1) * dsize * b);
-                let e = torus_err(&ph[i], &want).approx_f64().abs();
-                if e > fresh * (1.0 + 1e-9) {
-                    return Err(format!(
-                        "key cell (row {row}, input column {col}) coefficient {i}: phase - s_in*2^-{} = {:.4e} exceeds the fresh-encryption bound {:.4e} (cell does not encrypt the gadget-scaled input secret under the expected output secret)",
-                        (row + 1) * dsize * b,
-                        e,
-                        fresh
-                    ));
-                }
-                l1 += e;
-                err_max = err_max.max(e);
+            let (l1, mx, at) = errs[row][col];
+            if mx > fresh * (1.0 + 1e-9) {
+                return Err(format!(
+                    "cell (row {row}, input column {col}) coefficient {at}: phase - pt*2^-{} = {:.4e} exceeds the fresh-encryption bound {:.4e} (cell does not encrypt the gadget-scaled plaintext under the expected secret)",
+                    (row + 1) * dsize * b,
+                    mx,
+                    fresh
+                ));
             }
             err_l1[row][col] = l1;
+            err_max = err_max.max(mx);
         }
     }
     Ok(KeyMeta { b, dnum, dsize, size, rank_in, rank_out, err_l1, err_max })
@@ -176,9 +196,18 @@ pub fn digit_of_limb(l: usize, sp: usize, dnum: usize, dsize: usize) -> Option<(
 /// normalisation into `res`.  `s_in_l1[c]`: 1-norm of the input secret column c, `s_out_l1`: sum of the
 /// 1-norms of the output secret columns.
 pub fn ks_bound(key: &KeyMeta, a: Lay, res: Lay, n: usize, s_in_l1: &[u64], s_out_l1: u64) -> f64 {
+    ks_bound_scaled(key, a, res, n, s_in_l1, s_out_l1, 1.0)
+}
+
+/// `digit_scale`: largest input digit in units of 2^(b-1) (1 for normalised inputs, 2 for a difference of two)
+pub fn ks_bound_scaled(key: &KeyMeta, a: Lay, res: Lay, n: usize, s_in_l1: &[u64], s_out_l1: u64, digit_scale: f64) -> f64 {
     let bk = key.b;
     let sp = size_in_key_radix(a, bk);
-    let half = p2(bk as i64 - 1);
+    // a cross-radix conversion (glwe_normalize into the key radix) returns digits that are only nearly
+    // balanced (C08 promises the balanced range for equal radices only): pieces of t_i bits are extracted
+    // balanced and accumulated, |digit| < 2^b.  Count them as twice the balanced magnitude.
+    let cross = if a.b != bk { 2.0 } else { 1.0 };
+    let half = p2(bk as i64 - 1) * digit_scale * cross;
     let so = 1.0 + s_out_l1 as f64;
     let key_unit = p2(-((key.size * bk) as i64));
     let mut t = 0f64;
